@@ -7,10 +7,11 @@
 EXTENDS Monitor
 
 CONSTANTS W, AccN, MaxArr, MaxT, REPS, PsFree, InitSets,
+          Garbage,    \* TRUE: undecodable messages arrive on the metrics topic between the other steps
           Staged      \* TRUE (script generation by simulation only): the kind of the next action is drawn
                       \* first, so that random behaviours are not dominated by the many arrival variants
-VARIABLES s, o, obs, act, ph
-vars == <<s, o, obs, act, ph>>
+VARIABLES s, o, obs, act, ph, pact     \* pact: the action before act (history, for reachability goals)
+vars == <<s, o, obs, act, ph, pact>>
 View == <<s, o, obs>>
 
 Act(a, nm, p, v, e, r, k, S) ==
@@ -30,6 +31,8 @@ Acts ==
     \cup {Act("checkpeers", "", "", FALSE, "", 0, "", S) : S \in (SUBSET PEERS) \ {{}}}
     \cup {Act("checkall", "", "", FALSE, "", 0, "", {})}
     \cup (IF s.ps.kind = "nil" THEN {} ELSE {Act("watch", "", "", FALSE, "", 0, "", {})})
+    \cup (IF Garbage THEN {Act("garbage", "", "", FALSE, "", 0, g, {}) : g \in {"random", "truncated", "empty", "wrongtype"}}
+          ELSE {})
 
 Init ==
     /\ \E ps \in {[kind |-> "nil", set |-> {}]} \cup {[kind |-> "set", set |-> S] : S \in InitSets} :
@@ -37,6 +40,7 @@ Init ==
           /\ o = ObsInit(AccN, ps)
     /\ obs = ObsOf(s, <<>>)
     /\ act = NoAct
+    /\ pact = NoAct
     /\ ph = ""
 
 Step(a, b) ==
@@ -45,12 +49,13 @@ Step(a, b) ==
        /\ obs' = ObsOf(r.s, r.alerts)
        /\ o' = ObsStep(o, a, obs.n, r.alerts)
        /\ act' = a
+       /\ pact' = act
        /\ ph' = ""
 
 Do(a) == IF a.a \in {"checkpeers", "checkall", "watch"} THEN \E b \in BOOLEAN : Step(a, b) ELSE Step(a, TRUE)
 Next == IF ~Staged THEN \E a \in Acts : Do(a)
         ELSE IF ph = "" THEN /\ ph' \in {a.a : a \in Acts}
-                             /\ UNCHANGED <<s, o, obs, act>>
+                             /\ UNCHANGED <<s, o, obs, act, pact>>
         ELSE \E a \in {x \in Acts : x.a = ph} : Do(a)
 Spec == Init /\ [][Next]_vars
 
@@ -61,6 +66,7 @@ InvNoFalseAlarm         == NoFalseAlarm(o, obs)
 InvAlertOnce            == AlertOnce(o)
 InvReported             == Reported(o)
 InvForgotten            == Forgotten(o, obs)
+InvUsed                 == Used(o, obs)
 \* the observer's view of "latest" agrees with the store wherever the store still holds something
 InvObserverSane ==
     \A nm \in NAMES, p \in PEERS : obs.stored[nm][p] # 0 => obs.stored[nm][p] = o.last[nm][p].id
@@ -88,5 +94,15 @@ FarThenNear(cls) ==
            /\ o.since[p][nm] = 1
 NeverFarThenPastAlert  == ~FarThenNear("past")
 NeverFarThenShortAlert == ~FarThenNear("short")
+\* a valid far-expiring metric arrives right after an undecodable message, for a peer that already had a live metric
+FreshAfterGarbage ==
+    /\ act.a = "arrive" /\ act.valid /\ act.exp = "far" /\ pact.a = "garbage"
+    /\ LET q == s.win[act.name][act.peer]
+       IN Len(q) >= 2 /\ q[Len(q) - 1].valid /\ q[Len(q) - 1].exp = 0
+NeverFreshAfterGarbage(k) == ~(FreshAfterGarbage /\ pact.kind = k)
+NeverFreshAfterRandom    == NeverFreshAfterGarbage("random")
+NeverFreshAfterTruncated == NeverFreshAfterGarbage("truncated")
+NeverFreshAfterEmpty     == NeverFreshAfterGarbage("empty")
+NeverFreshAfterWrongType == NeverFreshAfterGarbage("wrongtype")
 NeverWrapExpired == ~(\E nm \in NAMES, p \in PEERS : obs.n[nm][p] = W /\ s.cnt[nm][p] > W /\ Len(obs.alerts) > 0)
 =============================================================================
